@@ -1,5 +1,3 @@
-//verif:v2only (root-module instantiation pending: API differences)
-
 package codecprops
 
 // C09 - deterministic, canonical serialization (v2): the same abstract value always serialises to
